@@ -151,9 +151,12 @@ def check_wrapped_stream(kind, p, X, wrap, wp, sup=None):
     out = []
     late = sup.get("late_rho") if sup else None
     base = K.make(kind, dict(p, rho=late) if late is not None else p)
-    with contextlib.redirect_stdout(io.StringIO()):
-        top = (artlib.DualVigilanceART(base, rho_lower_bound=wp["lb"]) if wrap == "DV"
-               else artlib.TopoART(base, beta_lower=wp["beta_lower"], tau=wp["tau"], phi=wp["phi"]))
+    try:
+        with contextlib.redirect_stdout(io.StringIO()):
+            top = (artlib.DualVigilanceART(base, rho_lower_bound=wp["lb"]) if wrap == "DV"
+                   else artlib.TopoART(base, beta_lower=wp["beta_lower"], tau=wp["tau"], phi=wp["phi"]))
+    except AssertionError:
+        return out                     # hyper-parameters rejected by validation: not a legal configuration
     if late is not None:
         # the vigilance is configured on the base module after the wrapper was built: the bounds are about the value
         # in force during training, not about the value at wrapping time
@@ -188,6 +191,11 @@ def check_wrapped_stream(kind, p, X, wrap, wp, sup=None):
                 out.append((f"{wrap}(Hyper)/radius-bound", f"base category {j}: radius {wa[-1]} > r_hat(1-rho)", i))
             elif kind == "Ellip" and wa[-1] > float(p["r_hat"]) * (1 - rho) / 2 + 1e-7:
                 out.append((f"{wrap}(Ellip)/radius-bound", f"base category {j}: radius {wa[-1]} > r_hat(1-rho)/2", i))
+            elif kind == "Bayes" and wa[-1] >= 2:
+                db = d
+                det = float(np.linalg.det(wa[db:-1].reshape(db, db)))
+                if det > rho * (1 + 1e-9) + 1e-15:
+                    out.append((f"{wrap}(Bayes)/det-bound", f"base category {j} ({int(wa[-1])} members): det(cov)={det} > rho={rho}", i))
         if out:
             return out
     return out
@@ -221,13 +229,23 @@ def wrapped_oracle(rng, n):
             wp["lb"] = rng.uniform(0.0, p["rho"] * 0.99)
             raw = np.array([[rng.random() for _ in range(d)] for _ in range(rng.randrange(5, 60))])
             X = np.hstack([raw, 1.0 - raw])
+        if wrap == "Topo" and rng.random() < 0.15:
+            wp["beta_lower"] = rng.choice([0.0, -0.5, -0.25])        # accepted by validation? then the categories must still only grow
         sup = None
-        if rng.random() < 0.4:
+        bayes = rng.random() < 0.1
+        if bayes:
+            # DualVigilanceART over Bayesian ART (inverted vigilance test: det(cov) <= rho), reset function, MT+ with a visible epsilon
+            kind, wrap, d = "Bayes", "DV", 2
+            p = {"rho": rng.choice([2e-4, 1e-3, 5e-3]), "cov_init": 0.01 * np.eye(2)}
+            wp["lb"] = p["rho"] * rng.choice([0.05, 0.25])
+            X = np.array([[rng.random() for _ in range(2)] for _ in range(rng.randrange(10, 40))])
+            sup = {"bits": [rng.random() < 0.55 for _ in range(11)], "mode": "MT+", "eps": rng.choice([1e-4, 2e-4, 1e-3])}
+        if sup is None and rng.random() < 0.4:
             # a reset function and every match-tracking mode: the bounds are on the configured vigilance whatever the
             # supervisor vetoes (a veto may only make the search stricter, MT-/MT0/MT~ leave it at most as strict)
             sup = {"bits": [rng.random() < 0.55 for _ in range(11)], "mode": rng.choice(["MT+", "MT+", "MT1", "MT~"]),
                    "eps": rng.choice([0.0, 1e-10, 1e-3, 0.05])}
-        if rng.random() < 0.12:
+        if not bayes and rng.random() < 0.12:
             # TopoART over Fuzzy ART on continuous data with a reset function and MT+: the search may raise the vigilance,
             # never lower it below the configured one
             kind, wrap = "Fuzzy", "Topo"
@@ -237,7 +255,7 @@ def wrapped_oracle(rng, n):
             raw = np.array([[rng.random() for _ in range(d)] for _ in range(rng.randrange(5, 40))])
             X = np.hstack([raw, 1.0 - raw])
             sup = {"bits": [rng.random() < 0.55 for _ in range(11)], "mode": "MT+", "eps": rng.choice([0.0, 1e-10, 1e-3, 0.05])}
-        if sup is None and kind in ("Fuzzy", "Hyper", "Ellip") and rng.random() < 0.3:
+        if not bayes and sup is None and kind in ("Fuzzy", "Hyper", "Ellip") and rng.random() < 0.3:
             sup = {"late_rho": (wp["lb"] + 0.01) if wrap == "DV" else rng.choice([0.0, 0.1, 0.2])}
         cnt += 1
         for sig, text, i in check_wrapped_stream(kind, p, X, wrap, wp, sup):
